@@ -145,9 +145,13 @@ func (s *Modifier) ModifyResponse(res *http.Response) error {
 			return err
 		}
 
-		if start > end {
+		if start > end || int64(start) >= info.Size() {
 			res.StatusCode = http.StatusRequestedRangeNotSatisfiable
 			return nil
+		}
+		// A last position beyond the end means "up to the last byte".
+		if int64(end) >= info.Size() {
+			end = int(info.Size()) - 1
 		}
 
 		ranges = append(ranges, []int{start, end})
@@ -166,6 +170,7 @@ func (s *Modifier) ModifyResponse(res *http.Response) error {
 		switch n, err := f.ReadAt(seg, int64(start)); err {
 		case nil, io.EOF:
 			res.ContentLength = int64(n)
+			seg = seg[:n]
 		default:
 			return err
 		}
@@ -192,6 +197,7 @@ func (s *Modifier) ModifyResponse(res *http.Response) error {
 		switch n, err := f.ReadAt(seg, int64(start)); err {
 		case nil, io.EOF:
 			res.ContentLength = int64(n)
+			seg = seg[:n]
 		default:
 			return err
 		}
